@@ -110,6 +110,7 @@ func (s *LogSink) NewLogger(string) logging.LeveledLogger { return simLogger{s} 
 type LifeEvent struct {
 	At    time.Time
 	Kind  string // alloc+ alloc- perm+ perm- chan+ chan- auth error
+	Net   string // network of Src ("udp", "tcp"): a UDP and a TCP client may share host and port number
 	Src   string
 	Dst   string
 	User  string
@@ -490,6 +491,14 @@ func (w *World) Events() []LifeEvent {
 	return append([]LifeEvent{}, w.events...)
 }
 
+func netOf(a net.Addr) string {
+	if a == nil {
+		return ""
+	}
+
+	return a.Network()
+}
+
 func addrStr(a net.Addr) string {
 	if a == nil {
 		return ""
@@ -604,28 +613,28 @@ func NewWorld(cfg Config, rec *Rec, rng *rand.Rand, bubble bool) (*World, error)
 	if !cfg.NoEvents {
 		sc.EventHandler = turn.EventHandler{
 			OnAuth: func(src, dst net.Addr, _ string, user, _ string, method string, verdict bool) {
-				w.event(LifeEvent{Kind: "auth", Src: addrStr(src), Dst: addrStr(dst), User: user, Text: method, OK: verdict})
+				w.event(LifeEvent{Kind: "auth", Net: netOf(src), Src: addrStr(src), Dst: addrStr(dst), User: user, Text: method, OK: verdict})
 			},
 			OnAllocationCreated: func(src, dst net.Addr, _ string, user, _ string, relay net.Addr, _ int) {
-				w.event(LifeEvent{Kind: "alloc+", Src: addrStr(src), Dst: addrStr(dst), User: user, Relay: addrStr(relay)})
+				w.event(LifeEvent{Kind: "alloc+", Net: netOf(src), Src: addrStr(src), Dst: addrStr(dst), User: user, Relay: addrStr(relay)})
 			},
 			OnAllocationDeleted: func(src, dst net.Addr, _ string, user, _ string) {
-				w.event(LifeEvent{Kind: "alloc-", Src: addrStr(src), Dst: addrStr(dst), User: user})
+				w.event(LifeEvent{Kind: "alloc-", Net: netOf(src), Src: addrStr(src), Dst: addrStr(dst), User: user})
 			},
 			OnAllocationError: func(src, dst net.Addr, _ string, msg string) {
-				w.event(LifeEvent{Kind: "error", Src: addrStr(src), Dst: addrStr(dst), Text: msg})
+				w.event(LifeEvent{Kind: "error", Net: netOf(src), Src: addrStr(src), Dst: addrStr(dst), Text: msg})
 			},
 			OnPermissionCreated: func(src, dst net.Addr, _ string, user, _ string, relay net.Addr, peer net.IP) {
-				w.event(LifeEvent{Kind: "perm+", Src: addrStr(src), Dst: addrStr(dst), User: user, Relay: addrStr(relay), Peer: peer.String()})
+				w.event(LifeEvent{Kind: "perm+", Net: netOf(src), Src: addrStr(src), Dst: addrStr(dst), User: user, Relay: addrStr(relay), Peer: peer.String()})
 			},
 			OnPermissionDeleted: func(src, dst net.Addr, _ string, user, _ string, relay net.Addr, peer net.IP) {
-				w.event(LifeEvent{Kind: "perm-", Src: addrStr(src), Dst: addrStr(dst), User: user, Relay: addrStr(relay), Peer: peer.String()})
+				w.event(LifeEvent{Kind: "perm-", Net: netOf(src), Src: addrStr(src), Dst: addrStr(dst), User: user, Relay: addrStr(relay), Peer: peer.String()})
 			},
 			OnChannelCreated: func(src, dst net.Addr, _ string, user, _ string, relay, peer net.Addr, num uint16) {
-				w.event(LifeEvent{Kind: "chan+", Src: addrStr(src), Dst: addrStr(dst), User: user, Relay: addrStr(relay), Peer: addrStr(peer), Num: num})
+				w.event(LifeEvent{Kind: "chan+", Net: netOf(src), Src: addrStr(src), Dst: addrStr(dst), User: user, Relay: addrStr(relay), Peer: addrStr(peer), Num: num})
 			},
 			OnChannelDeleted: func(src, dst net.Addr, _ string, user, _ string, relay, peer net.Addr, num uint16) {
-				w.event(LifeEvent{Kind: "chan-", Src: addrStr(src), Dst: addrStr(dst), User: user, Relay: addrStr(relay), Peer: addrStr(peer), Num: num})
+				w.event(LifeEvent{Kind: "chan-", Net: netOf(src), Src: addrStr(src), Dst: addrStr(dst), User: user, Relay: addrStr(relay), Peer: addrStr(peer), Num: num})
 			},
 		}
 	}
